@@ -29,7 +29,7 @@ CLASSES = ("constant", "two_valued", "bits2", "bits4", "bits8", "normal", "wide"
 
 def REQUIRED(tier):
     return ["histories:composition", "histories:merge", "histories:merge_of_merges", "class:constant", "class:wide", "class:outlier", "class:tiny",
-            "mode:basic", "mode:full", "constant_channel_checks", "single_sample_chunks", "canary_audits", "cross_partition_checks", "class:const_f64", "class:normal_f64", "histories:large_merge", "regime:merged_count_over_2^21", "histories:observed_mid_stream", "merge:augmented_assignment", "regime:chunks_of_thousands_of_samples", "histories:reused_chunk_buffer", "histories:after_refused_first_push", "histories:reader_windows", "regime:single_chunk_over_2^20_elements_nchans_not_power_of_two", "regime:one_level_repeated_over_2^16_times_in_a_chunk", "regime:merged_count_over_2^24", "histories:accumulator_read_after_cleaning:channels_flagged"]
+            "mode:basic", "mode:full", "constant_channel_checks", "single_sample_chunks", "canary_audits", "cross_partition_checks", "class:const_f64", "class:normal_f64", "histories:large_merge", "regime:merged_count_over_2^21", "histories:observed_mid_stream", "merge:augmented_assignment", "regime:chunks_of_thousands_of_samples", "histories:reused_chunk_buffer", "histories:after_refused_first_push", "histories:reader_windows", "regime:single_chunk_over_2^20_elements_nchans_not_power_of_two", "regime:one_level_repeated_over_2^16_times_in_a_chunk", "regime:merged_count_over_2^24", "histories:accumulator_read_after_cleaning:channels_flagged", "regime:channel_count_off_every_tile_size"]
 
 
 def cases(tier, seed):
@@ -61,6 +61,11 @@ def cases(tier, seed):
     for cls, mode in (("constant", "full"), ("two_valued", "full"), ("constant", "basic")):     # dead / saturated / one-bit channels: one level repeated >= 2^16 times in a chunk
         k += 1
         yield {"kind": "random", "cls": cls, "mode": mode, "n": 150000, "nchans": 2, "dseed": int(seed) * 1009 + k, "threads": 0, "long": True, "repeated_levels": True}
+    wrng = np.random.default_rng([seed, 1012])
+    for i in range(30 if tier == "quick" else 400):    # wide bands whose channel count is not a multiple of a tile (16, 32, 64) nor a power of two
+        k += 1
+        yield {"kind": "random", "cls": str(wrng.choice(["normal", "bits8", "two_valued", "outlier", "normal_f64"])), "mode": ("basic", "full")[i % 2], "n": int(wrng.integers(11, 500)),
+               "nchans": int((33, 40, 100, 129, 250, 1031)[i % 6]), "dseed": int(seed) * 1009 + k, "threads": 0, "wide_band": True}
     rng = np.random.default_rng([seed, 1010])
     nr = 400 if tier == "quick" else 8000
     for _ in range(nr):
@@ -303,6 +308,8 @@ def run_case(case, ctx):
     ref = refmodels.moments_two_pass(x)
     ctx.count(f"class:{cls}")
     ctx.count(f"mode:{mode}")
+    if case.get("wide_band"):
+        ctx.count("regime:channel_count_off_every_tile_size")
     rng = np.random.default_rng([case["dseed"], 9])
     results = []
 
